@@ -5,6 +5,7 @@ import os
 VERIF = os.path.dirname(os.path.dirname(os.path.abspath(__file__)))
 
 CLAIMED = {
+    "C01": ("solveOne_sound / solveAll_sound / optimize_sound: on the model of the search loop, for every variable and value heuristic and every reachable stack, every yielded or returned vector is `reported P σ` for an assignment σ inside the root domains satisfying every posted constraint (C01_enumeration, C01_optimisation); whole-run correspondence (solution sequence + 13 statistics) and brute-force check of the real solver", "§7 C01"),
     "C05": ("Sound <alg> theorems (Lean) for the proved algorithms + correspondence of every compute_domains_* with the model + brute-force oracle on the implementation", "§7 C05"),
     "C06": ("GroundOk <alg> theorems + C06_point_iff; correspondence on instantiated boxes; oracle", "§7 C06"),
     "C07": ("EntailOk <alg> theorems; status correspondence; oracle", "§7 C07"),
